@@ -27,7 +27,11 @@ RULE = ("Each run picks a side.  Controller: 1-2 fully handshaken "
         "outcomes {accept all, accept k of n, EAGAIN, fatal error}; the "
         "engine pre-empts at every traced line of of_01.py and every lock/"
         "select.  Switch: a RecocoIOWorker under the real IO loop with the "
-        "same kind of script, messages queued with send / send_fast.  "
+        "same kind of script, messages queued with send / send_fast; in a "
+        "sixth of the runs (swt) the worker is fed by a foreign controlled "
+        "thread while the loop thread flushes, pre-empted at every line of "
+        "ioworker/__init__.py, half of the sends aimed at the moment the "
+        "loop is inside _do_send.  "
         "Invariant at every yield point: the bytes accepted by each socket "
         "are a prefix of the concatenation of the messages queued on it; at "
         "quiescence after the script ends they are the whole concatenation; "
@@ -36,8 +40,11 @@ RULE = ("Each run picks a side.  Controller: 1-2 fully handshaken "
         "later message queued behind it; distinct = distinct event-log "
         "digest.")
 ASSUMPTIONS = [
-  "pre-emption at line granularity in of_01.py plus every intercepted "
-  "primitive; scripts are sampled, not enumerated",
+  "pre-emption at line granularity in of_01.py (ioworker/__init__.py for "
+  "swt) plus every intercepted primitive; scripts are sampled, not "
+  "enumerated; IOWorker.send's `send_buf += data` against _consume_send_buf's "
+  "slice assignment is a read-modify-write race below line granularity in "
+  "the unchanged tree and is not explored",
   "a send attempt on a socket that already failed fatally is not counted as "
   "'written' (nothing can be accepted by it)",
 ]
@@ -48,7 +55,8 @@ REAL = ["pox.openflow.of_01 Connection.send / disconnect, DeferredSender "
 STUBBED = ["socket (scripted outcomes), select, pinger, time, threading "
            "primitives (simkit)", "switch peers / controller peer (scripted)"]
 EXPECT_PROBES = ["side_ctl", "side_sw", "tx_script_part", "tx_script_eagain",
-                 "tx_script_fatal", "deferred_used", "send_fast_used"]
+                 "tx_script_fatal", "deferred_used", "send_fast_used",
+                 "side_swt", "send_while_flushing"]
 
 
 def _script(r, n, fatal_ok=True):
@@ -68,9 +76,22 @@ def _script(r, n, fatal_ok=True):
 
 def gen_plan(seed, tier):
   r = Rng(seed)
-  side = r.wpick([(3, "ctl"), (2, "sw")])
+  side = r.wpick([(3, "ctl"), (2, "sw"), (1, "swt")])
   cfg = {"side": side}
   steps = []
+  if side == "swt":
+    # the switch-side worker fed from a foreign thread (IOWorker.send is
+    # fire-and-forget with a pinger: made to be called from elsewhere) while
+    # the IO loop flushes, pre-empted at every line of ioworker and recoco
+    cfg.update({"threaded_hub": r.chance(0.3),
+                "policy": r.pick(["random", "random", "pct"]),
+                "switch_p": r.pick([0.1, 0.3, 0.6]),
+                "pct_depth": r.randint(1, 3), "step_cap": 300000,
+                "script": _script(r, r.randint(0, 8), fatal_ok=False)})
+    for i in range(r.randint(2, 8)):
+      steps.append({"n": r.pick([8, 9, 40, 200, 1500]),
+                    "gap": r.pick([0, 0, 0, 1]), "aim": r.chance(0.5)})
+    return {"prop": PROP, "seed": seed, "cfg": cfg, "steps": steps}
   if side == "ctl":
     cfg.update({"ncon": r.randint(1, 2), "threaded_hub": r.chance(0.3),
                 "policy": r.pick(["random", "random", "pct"]),
@@ -119,6 +140,8 @@ def run_plan(plan):
     sim.probes["side_" + cfg["side"]] += 1
     if cfg["side"] == "ctl":
       steps = _drive_ctl(sim, plan, known, hit)
+    elif cfg["side"] == "swt":
+      steps = _drive_swt(sim, plan, known, hit)
     else:
       steps = _drive_sw(sim, plan, known, hit)
   except Violation as v:
@@ -215,6 +238,85 @@ def _drive_sw(sim, plan, known, hit):
                       % (len(a.accepted), len(queued)))
     if bytes(b.take()) != queued:
       raise Violation("sw/peer-mismatch", "peer received a different stream")
+  return len(plan["steps"])
+
+
+def _drive_swt(sim, plan, known, hit):
+  import pox.lib.ioworker as IOW
+  cfg = plan["cfg"]
+  tw = ThreadsWorld(sim, cfg)
+  eng = tw.boot(trace_files=("pox/lib/recoco/recoco.py",
+                             "pox/lib/ioworker/__init__.py"))
+  loop = IOW.RecocoIOLoop()
+  loop.start()
+  a, b = sim.socketpair("worker-sock", "peer")
+  b.recv_all = True
+  worker = loop.new_worker(socket=a)
+  closes = []
+  worker.close_handler = lambda w: closes.append(sim.now)
+  a.tx_script = [tuple(x) for x in cfg.get("script", [])]
+  queued = []
+  tw.start_scheduler()
+
+  where = {}        # controlled thread -> function it is executing
+
+  def on_step(t, frame):
+    if frame is not None:
+      where[t.idx] = frame.f_code.co_name
+  eng.on_step = on_step
+
+  def flushing():
+    return any(v == "_do_send" for v in where.values())
+
+  def sender():
+    for i, st in enumerate(plan["steps"]):
+      data = _payload(i, st["n"])
+      if st.get("aim") and queued:
+        # place this send inside an operation with in-flight state: wait
+        # (bounded) until the IO loop is in the middle of flushing
+        if eng.block(flushing, 0.5):
+          sim.probes["send_while_flushing"] += 1
+      queued.append(data)
+      worker.send(data)
+      if st.get("gap"):
+        eng.block(None, 0.01)
+    total = sum(len(d) for d in queued)
+    for _ in range(120):
+      if len(a.accepted) >= total or worker.closed:
+        break
+      eng.block(None, 0.25)
+    tw.stop_scheduler()
+  eng.spawn(sender, "sender")
+  fin = eng.run(wall_timeout=30.0)
+  sim.probes["threaded_switches"] += eng.switches
+  sim.stats["traced_steps"] += eng.steps
+  if fin is None or fin[0] == "wall":
+    raise S.SimAbort("harness", "engine did not finish: %r" % (fin,))
+  if fin[0] == "abort":
+    raise Violation("swt/" + fin[1], fin[2])
+  if fin[0] == "deadlock":
+    raise Violation("swt/deadlock", "%r" % (fin[1],))
+  if fin[0] == "cap":
+    raise Violation("swt/livelock", "no quiescence within %d traced steps"
+                    % fin[1])
+  for t in eng.threads:
+    if t.error is not None:
+      raise Violation("swt/thread-died", "thread %s: %s: %s"
+                      % (t.name, t.error[0], t.error[1]))
+  if sim.task_deaths:
+    raise Violation("swt/task-died", "%r" % (sim.task_deaths[:2],))
+  want = b"".join(queued)
+  acc = bytes(a.accepted)
+  if closes:
+    raise Violation("swt/spurious-close", "worker closed without a fatal "
+                    "error")
+  if acc != want:
+    i = next((k for k in range(min(len(acc), len(want)))
+              if acc[k] != want[k]), min(len(acc), len(want)))
+    raise Violation("swt/stream-corrupted", "messages sent from a foreign "
+                    "thread while the IO loop was flushing: the socket "
+                    "accepted %d bytes, %d were queued; first difference at "
+                    "%d" % (len(acc), len(want), i))
   return len(plan["steps"])
 
 
